@@ -120,7 +120,7 @@ fn vec_case<const D: usize>(item: u64, rng: &mut Rng, acc: &mut Acc) {
     if dot.is_nan() || dot.is_infinite() {
         acc.count("dot_nonfinite_cases");
     }
-    if item < 2 {
+    if acc.samples.is_empty() {
         acc.sample(json!({"D": D, "a": fjv(&a_arr), "b": fjv(&b_arr), "s": fj(s), "dot": fj(a.dot(&b)), "squared": fj(a.squared())}));
     }
     let bad = bad.into_inner();
